@@ -1,4 +1,4 @@
-CONSTANTS LoopTargetsSupported = FALSE  WithRewritten = FALSE
+CONSTANTS LoopTargetsSupported = FALSE  WithRewritten = FALSE  FallOffRewritten = FALSE
 INIT InitX
 NEXT Next
 CONSTRAINT Collect
